@@ -241,6 +241,139 @@ func propC20(w *World, r *Report) {
 			}
 		}
 	}
+	// the limiter recognises a recurring condition by its exact text: what the callers print for a per-frame condition
+	// must not embed a value read from the clock (a time, a duration until something): the text would differ on every
+	// frame and nothing would ever be suppressed
+	nSites := 0
+	for _, fn := range w.RepoFuncs() {
+		for _, b := range fn.Blocks {
+			for _, in := range b.Instrs {
+				call, ok := in.(*ssa.Call)
+				if !ok {
+					continue
+				}
+				callee := call.Call.StaticCallee()
+				if callee == nil || callee.Signature.Recv() == nil || !isPtrTo(callee.Signature.Recv().Type(), T) || fn.Signature.Recv() != nil && isPtrTo(fn.Signature.Recv().Type(), T) {
+					continue
+				}
+				if callee.Name() != "Printf" && callee.Name() != "Print" {
+					continue
+				}
+				nSites++
+				src := ""
+				for _, a := range call.Call.Args[1:] {
+					if s := clockSourceOf(w, a, map[ssa.Value]bool{}, 0); s != "" {
+						src = s
+					}
+				}
+				r.Check(src == "", "G2", "text handed to the limiter in "+fn.Name()+" does not embed a clock reading", w.InstrPos(call), src)
+			}
+		}
+	}
+	r.Check(nSites >= 5, "G4", "call sites of the limiter found", "-", fmt.Sprint(nSites))
 	r.Check(n >= 1, "G4", "the recorder builds a limiter", "-", fmt.Sprint(n))
 	r.Check(nInstall >= 1, "G4", "the limiter is installed in an owner", "-", fmt.Sprint(nInstall))
+}
+
+// clockSourceOf: does v (a message argument) derive from a reading of the clock? Followed backwards through
+// conversions, interface boxing, variadic argument lists, phis, string building calls and the results of repository
+// functions (error values built by helpers). Returns a description of the clock call reached, "" when none.
+func clockSourceOf(w *World, v ssa.Value, seen map[ssa.Value]bool, depth int) string {
+	if v == nil || seen[v] || depth > 12 {
+		return ""
+	}
+	seen[v] = true
+	switch x := v.(type) {
+	case *ssa.MakeInterface:
+		return clockSourceOf(w, x.X, seen, depth+1)
+	case *ssa.ChangeInterface:
+		return clockSourceOf(w, x.X, seen, depth+1)
+	case *ssa.ChangeType:
+		return clockSourceOf(w, x.X, seen, depth+1)
+	case *ssa.Convert:
+		return clockSourceOf(w, x.X, seen, depth+1)
+	case *ssa.Extract:
+		return clockSourceOf(w, x.Tuple, seen, depth+1)
+	case *ssa.Phi:
+		for _, e := range x.Edges {
+			if s := clockSourceOf(w, e, seen, depth+1); s != "" {
+				return s
+			}
+		}
+	case *ssa.BinOp:
+		if s := clockSourceOf(w, x.X, seen, depth+1); s != "" {
+			return s
+		}
+		return clockSourceOf(w, x.Y, seen, depth+1)
+	case *ssa.Slice:
+		return clockSourceOf(w, x.X, seen, depth+1)
+	case *ssa.Alloc:
+		// a variadic argument array / a local: whatever is stored into it
+		if refs := x.Referrers(); refs != nil {
+			for _, rf := range *refs {
+				switch y := rf.(type) {
+				case *ssa.Store:
+					if s := clockSourceOf(w, y.Val, seen, depth+1); s != "" {
+						return s
+					}
+				case *ssa.IndexAddr:
+					if y.Referrers() != nil {
+						for _, u := range *y.Referrers() {
+							if st, ok := u.(*ssa.Store); ok {
+								if s := clockSourceOf(w, st.Val, seen, depth+1); s != "" {
+									return s
+								}
+							}
+						}
+					}
+				}
+			}
+		}
+	case *ssa.UnOp:
+		if al, ok := x.X.(*ssa.Alloc); ok {
+			return clockSourceOf(w, al, seen, depth+1)
+		}
+	case *ssa.Call:
+		callee := x.Call.StaticCallee()
+		name := calleeNameCI(x)
+		if callee != nil && callee.Pkg != nil {
+			pp := callee.Pkg.Pkg.Path()
+			res := callee.Signature.Results()
+			timeLike := false
+			for i := 0; i < res.Len(); i++ {
+				ts := res.At(i).Type().String()
+				if ts == "time.Time" || ts == "time.Duration" {
+					timeLike = true
+				}
+			}
+			if pp == "time" && (callee.Name() == "Now" || callee.Name() == "Since" || callee.Name() == "Until") {
+				return "clock read through " + name
+			}
+			if pp == "github.com/TheCacophonyProject/window" && timeLike {
+				return "clock-relative value " + name
+			}
+		}
+		if x.Call.IsInvoke() {
+			return ""
+		}
+		// arguments of formatting / arithmetic helpers, receivers of time methods
+		for _, a := range x.Call.Args {
+			if s := clockSourceOf(w, a, seen, depth+1); s != "" {
+				return s
+			}
+		}
+		// the results of a repository function: what it returns
+		if callee != nil && w.IsRepoFunc(callee) && len(callee.Blocks) > 0 {
+			for _, b := range callee.Blocks {
+				if ret, ok := b.Instrs[len(b.Instrs)-1].(*ssa.Return); ok {
+					for _, rv := range ret.Results {
+						if s := clockSourceOf(w, rv, seen, depth+1); s != "" {
+							return s
+						}
+					}
+				}
+			}
+		}
+	}
+	return ""
 }
